@@ -65,6 +65,12 @@ func cmRender(t string, at, at2, style int) (string, int) {
 		}
 		text := "c" + string(rune('0'+k%10)) + string(rune('a'+k/10))
 		switch {
+		case style == 3:
+			sb.WriteString("/**/")
+		case style == 4:
+			sb.WriteString("/** " + text + " **/")
+		case style == 5:
+			sb.WriteString("/*/ " + text + " /*/")
 		case ownLine || endOfLine:
 			switch style {
 			case 0:
@@ -138,7 +144,7 @@ func VerifSimulatorInert() {
 	t := SiBodies[nondet.Param("B")]
 	n := cmCount(t)
 	at := nondet.IntRange("at", 0, n-1)
-	style := nondet.Choice("style", 3)
+	style := nondet.Choice("style", 6)
 	plain, _ := cmRender(t, -1, -1, 0)
 	src, _ := cmRender(t, at, -1, style)
 	if nondet.Bool("layout") {
